@@ -1,8 +1,76 @@
-(* C18 — the scheduling frontier.  Only statements; proofs are in Proofs/TaskGraphP*.v *)
+(* C18 — the scheduling frontier offers exactly the work that may be decided now.
+   Only statements; proofs are in Proofs/TaskGraphP*.v.  Model: Model/TaskGraph.v tg_schedulable
+   (TaskGraph.get_schedulable_tasks), notify_completion, tg_releasable. *)
 From Coq Require Import ZArith Bool List.
 Import ListNotations.
-From Verif Require Import Model.Val Gen.Src_Task Gen.Src_TaskGraph Model.TaskGraph Proofs.TaskGraphP.
+From Verif Require Import Model.Val Gen.Src_Task Gen.Src_TaskGraph Model.TaskGraph
+  Proofs.TaskGraphP Proofs.TaskGraphP1 Proofs.TaskGraphP2 Proofs.TaskGraphP3 Proofs.TaskGraphP5
+  Proofs.TaskGraphP6 Proofs.TaskGraphP7.
 Open Scope Z_scope.
+
+(* no starvation: a RELEASED task whose release time has arrived (within the lookahead) is offered *)
+Theorem C18_no_starve : forall g o draws fr d' x, tg_schedulable g o draws = Ok (fr, d') ->
+  In x (tg_nodes g) -> tg_state g x = TS_RELEASED ->
+  t_release_time (tt_dyn (tg_task g x)) <= so_time o + so_lookahead o -> In x fr.
+Proof. exact frontier_no_starve. Qed.
+Print Assumptions C18_no_starve.
+
+(* every member of the frontier, classified by state (so_placed: the tasks the worker pools report) *)
+Theorem C18_members : forall g o draws fr d' x, tg_schedulable g o draws = Ok (fr, d') -> In x fr ->
+  (In x (tg_nodes g) /\
+   ((tg_state g x = TS_RELEASED /\ t_release_time (tt_dyn (tg_task g x)) <= so_time o + so_lookahead o) \/
+    tg_state g x = TS_PREEMPTED \/ tg_state g x = TS_EVICTED \/ tg_state g x = TS_VIRTUAL \/
+    (tg_state g x = TS_SCHEDULED /\ so_retract o = true))) \/
+  (so_preemption o = true /\
+   match so_placed o with Some l => In x l
+   | None => In x (tg_nodes g) /\ (tg_state g x = TS_SCHEDULED \/ tg_state g x = TS_RUNNING) end).
+Proof. exact frontier_members. Qed.
+Print Assumptions C18_members.
+Theorem C18_never_final : forall g o draws fr d' x, tg_schedulable g o draws = Ok (fr, d') ->
+  so_placed o = None -> In x fr -> tg_state g x <> TS_COMPLETED /\ tg_state g x <> TS_CANCELLED.
+Proof. exact frontier_never_final. Qed.
+Print Assumptions C18_never_final.
+Theorem C18_scheduled_only_if : forall g o draws fr d' x, tg_schedulable g o draws = Ok (fr, d') ->
+  so_placed o = None -> In x fr -> tg_state g x = TS_SCHEDULED -> so_retract o = true \/ so_preemption o = true.
+Proof. exact frontier_scheduled_only_if. Qed.
+Print Assumptions C18_scheduled_only_if.
+Theorem C18_running_only_if : forall g o draws fr d' x, tg_schedulable g o draws = Ok (fr, d') ->
+  so_placed o = None -> In x fr -> tg_state g x = TS_RUNNING -> so_preemption o = true.
+Proof. exact frontier_running_only_if. Qed.
+Print Assumptions C18_running_only_if.
+(* PREEMPTED and EVICTED tasks are always offered (the code says so; an EVICTED task counts as
+   is_complete() elsewhere) *)
+Theorem C18_preempted_evicted_offered : forall g o draws fr d' x, tg_schedulable g o draws = Ok (fr, d') ->
+  In x (tg_nodes g) -> tg_state g x = TS_PREEMPTED \/ tg_state g x = TS_EVICTED -> In x fr.
+Proof. exact frontier_preempted_evicted. Qed.
+Print Assumptions C18_preempted_evicted_offered.
+
+(* monotonicity: a larger lookahead and/or release_taskgraphs only ADD tasks (same draws, which are
+   consumed identically) *)
+Theorem C18_mono : forall g o o' draws fr d' fr' d'', opts_le o o' ->
+  tg_schedulable g o draws = Ok (fr, d') -> tg_schedulable g o' draws = Ok (fr', d'') ->
+  incl fr fr' /\ d'' = d'.
+Proof. exact frontier_mono. Qed.
+Print Assumptions C18_mono.
+
+(* on completion of a non-conditional task exactly the children that are not cancelled and whose every
+   parent is complete (for a join: at once, after this first completed parent) are released *)
+Theorem C18_children : forall g t fin draw g' rel canc,
+  notify_completion g t fin draw = (g', Ok (rel, canc)) -> tg_conditional g t = false ->
+  g' = g /\ canc = [] /\ tg_complete g t = true /\
+  (forall c, In c rel <-> In c (tg_children g t) /\ tg_state g c <> TS_CANCELLED /\
+                          (tg_terminal g c = true \/ forall p, In p (tg_parents g c) -> tg_complete g p = true)) /\
+  (forall c, In c (tg_children g t) -> notify_moved_beyond (tg_state g c) = false).
+Proof. exact notify_children. Qed.
+Print Assumptions C18_children.
+(* conditional task: the one drawn child *)
+Theorem C18_children_conditional : forall g t fin draw g' rel canc,
+  notify_completion g t fin draw = (g', Ok (rel, canc)) -> tg_conditional g t = true ->
+  all_children_zero g t = false ->
+  exists k, nth_z (tg_children g t) draw = Some k /\ rel = [k] /\ In k (tg_children g t) /\
+            ((forall c, nth_z (tg_children g t) draw = Some c -> 0 < tg_prob g c) -> 0 < tg_prob g k).
+Proof. exact notify_one. Qed.
+Print Assumptions C18_children_conditional.
 
 Theorem C18_ready_to_run : forall terminal sts s,
   is_ready_to_run terminal sts s = true <->
@@ -10,3 +78,13 @@ Theorem C18_ready_to_run : forall terminal sts s,
   (s = TS_SCHEDULED \/ s = TS_PREEMPTED).
 Proof. exact ready_spec. Qed.
 Print Assumptions C18_ready_to_run.
+
+(* ---- non-vacuity: A (RELEASED, release 3) -> B (VIRTUAL), time 5: A is offered, B is not ---- *)
+Definition c18_g : tgraph :=
+  mkTG [(1, [2]); (2, [])]
+       [(1, mk_ttask TS_RELEASED 3 100 0 (-1) 16 false false (-1) [4]);
+        (2, mk_ttask TS_VIRTUAL (-1) 100 0 (-1) 16 false false (-1) [2])] 16.
+Example C18_example :
+  tg_schedulable c18_g (mkSO 5 0 false false None ALL false) [] = Ok ([1], []) /\
+  tg_schedulable c18_g (mkSO 5 4 false false None ALL false) [] = Ok ([1; 2], []).
+Proof. split; vm_compute; reflexivity. Qed.
